@@ -1,6 +1,12 @@
 package main
 
-import "golang.org/x/tools/go/ssa"
+import (
+	"fmt"
+	"go/token"
+	"path/filepath"
+
+	"golang.org/x/tools/go/ssa"
+)
 
 // valName is the SMT name of an SSA value: values of the function under
 // contract keep stable names; values of inlined callees and nested function
@@ -14,4 +20,13 @@ func (x *Exec) valName(v ssa.Value) string {
 		return x.fn.Name() + "_" + v.Name()
 	}
 	return x.fresh(sanitize(p.Name()) + "_" + v.Name())
+}
+
+// shortPos: file:line of a position, for messages.
+func (x *Exec) shortPos(p token.Pos) string {
+	if !p.IsValid() {
+		return "?"
+	}
+	pp := x.L.Fset.Position(p)
+	return fmt.Sprintf("%s:%d", filepath.Base(pp.Filename), pp.Line)
 }
